@@ -159,7 +159,6 @@ InputOf(c) == [t |-> "input", c |-> c]
 
 Call(c) ==
     /\ pc = "read" /\ inq = <<>> /\ ~closed /\ ncalls < MaxCalls
-    /\ IF ncalls = 0 THEN c \in Calls ELSE c \in Probes
     /\ (Mode = "tree") => Len(hist) < Depth - 1
     /\ inq' = IF IsStream(c) THEN << [t |-> "req", c |-> c], InputOf(c) >>
                               ELSE << [t |-> "req", c |-> c] >>
@@ -169,6 +168,9 @@ Call(c) ==
 
 CloseConn ==
     /\ pc = "read" /\ inq = <<>> /\ ~closed
+    \* seeded walks (tree mode): TLC's simulator picks among the disjuncts of Next, so an
+    \* always-enabled close would end half of the walks at each read; close when the walk is full
+    /\ (Mode = "tree") => ~(Len(hist) < Depth - 1 /\ ncalls < MaxCalls)
     /\ closed' = TRUE
     /\ UNCHANGED <<pc, inq, cur, out, ix, tx, herr, jr, hk, ncalls>>
     /\ Silent
@@ -401,7 +403,11 @@ Server == ReadRequest_OK \/ ReadRequest_RpcError \/ ReadRequest_EOF \/ ReadReque
           \/ Init_Fail \/ Init_OK \/ WriteHeader \/ InputEOS \/ Cancel \/ CastFail \/ Turn
           \/ CloseAndDrain
 
-Next == (\E c \in Calls \cup Probes : Call(c)) \/ CloseConn \/ Server
+\* the first call of a session is drawn from Calls, every later one from Probes (membership
+\* tests against these large sets are avoided: TLC re-enumerates them per test)
+Next == \/ (ncalls = 0 /\ \E c \in Calls : Call(c))
+        \/ (ncalls > 0 /\ \E c \in Probes : Call(c))
+        \/ CloseConn \/ Server
 
 Spec == Init /\ [][Next]_vars
 FairSpec == Spec /\ WF_vars(Server)
